@@ -12,7 +12,7 @@ namespace Sozu.Headers
 
 /-- **The strict reader reads back exactly what sozu understood.** For every
     well-formed request (as `validateRequest` produces them, see
-    `C03_valid_is_wellformed_partial`), every body consistent with the framing
+    `C03_valid_is_wellformed`), every body consistent with the framing
     sozu chose, and whatever follows on the connection: a strict RFC 9112
     reader consumes exactly the bytes sozu wrote for this request and reads the
     same method, target, header lines (hence `Host`), framing and payload. -/
@@ -52,33 +52,36 @@ theorem C03_valid_no_forbidden_bytes (lim : Limits) (es : Bool) (hl : List (Byte
     (h : validateRequest lim es hl = .ok r) : Clean r :=
   validate_clean lim es hl r h
 
-/-- **Accepted ⇒ well-formed**, under the two hypotheses the code needs: no SP
-    in `:path` (sozu forwards it verbatim) and at most one `content-length`
-    field (sozu forwards equal duplicates). Then the request line, every header
-    line, the single `Host` and the single framing header are exactly what the
-    strict reader expects, and `C03_unambiguous` applies. -/
-theorem C03_valid_is_wellformed_partial (lim : Limits) (es : Bool) (hl : List (Bytes × Bytes)) (r : Req)
-    (h : validateRequest lim es hl = .ok r)
-    (hsp : ∀ kv ∈ hl, eqNoCase kv.1 sPath = true → 32 ∉ kv.2)
-    (hcl : (hl.filter fun kv => eqNoCase kv.1 sContentLength).length ≤ 1) : WF r :=
-  validate_wf lim es hl r h hsp hcl
+/-- **Accepted ⇒ well-formed** (full strength: every header list, every
+    limit, both END_STREAM values). The request line, every header line, the
+    single `Host` and the single framing header of an accepted request are
+    exactly what the strict reader expects, so `C03_unambiguous` applies to
+    everything `validateRequest` accepts. (Before the repairs `fix: reject SP
+    in an HTTP/2 :path and emit a single Content-Length` this needed the
+    hypotheses "no SP in :path" and "at most one content-length".) -/
+theorem C03_valid_is_wellformed (lim : Limits) (es : Bool) (hl : List (Bytes × Bytes)) (r : Req)
+    (h : validateRequest lim es hl = .ok r) : WF r :=
+  validate_wf lim es hl r h
 
-/-- the excluded points really fail in the model (and in the code: classes
-    `c03-sp-in-target`, `c03-dup-content-length-forwarded` of the harness) -/
-theorem C03_valid_is_wellformed_counterexample_sp :
-    ∃ r, validateRequest ⟨65536, 100, 2 ^ 64⟩ true
-      [(sMethod, [71, 69, 84]), (sScheme, sHttps), (sPath, [47, 97, 32, 98]), (sAuthority, [97])] = .ok r ∧
-      parseStrict (wire r []) = none := by
-  refine ⟨_, rfl, ?_⟩
-  decide
+/-- accepted ⇒ read back identically: the two theorems composed -/
+theorem C03_accepted_reads_back (lim : Limits) (es : Bool) (hl : List (Bytes × Bytes)) (r : Req)
+    (chunks : List Bytes) (rest : Bytes) (h : validateRequest lim es hl = .ok r) (hb : BodyFits r chunks) :
+    parseStrict (wire r chunks ++ rest) = some (understood r chunks, rest) :=
+  parseStrict_wire r chunks rest (validate_wf lim es hl r h) hb
 
-theorem C03_valid_is_wellformed_counterexample_dupcl :
-    ∃ r, validateRequest ⟨65536, 100, 2 ^ 64⟩ false
+/-- regression examples (the former counterexamples): SP in `:path` is now
+    rejected; an equal duplicate `content-length` is accepted, written once,
+    and the request reads back -/
+example : validateRequest ⟨65536, 100, 2 ^ 64⟩ true
+    [(sMethod, [71, 69, 84]), (sScheme, sHttps), (sPath, [47, 97, 32, 98]), (sAuthority, [97])] = .error .invalidPath := by
+  rfl
+
+example : ∃ r, validateRequest ⟨65536, 100, 2 ^ 64⟩ false
       [(sMethod, [71, 69, 84]), (sScheme, sHttps), (sPath, [47]), (sAuthority, [97]),
-       (sContentLength, [49]), (sContentLength, [49])] = .ok r ∧
-      parseStrict (wire r [[120]]) = none := by
-  refine ⟨_, rfl, ?_⟩
-  decide
+       (sContentLength, [49]), (sContentLength, [48, 49])] = .ok r ∧
+      (emitted r).filter (fun kv => eqNoCase kv.1 sContentLength) = [(sContentLength, [49])] ∧
+      parseStrict (wire r [[120]]) = some (understood r [[120]], []) := by
+  refine ⟨_, rfl, ?_, ?_⟩ <;> decide
 
 /-- **Trailers.** What `handle_trailer` lets through is clean (token names,
     no CTL in values) and never contains the four client-attribution fields.
